@@ -22,7 +22,8 @@ EXPLANATION = (
     "mask; (R3) every schema-level coercion site converts ParserError into SchemaError(reason_code=DATATYPE_COERCION, "
     "failure_cases=exc.failure_cases); (R4) no coerce/try_coerce implementation writes through its data_container "
     "argument; (R5) values whose declared return type is pl.LazyFrame are not combined with & | ~ (LazyFrame defines "
-    "none). NOT decided: everything value-level - exactness, idempotence, agreement of coerce/coerce_value/check."
+    "none); (R6) wherever a coerce method compares null-ness after the conversion with null-ness of its input, the two "
+    "masks are combined element-wise (isna(result) & notna(input)) before any aggregation. NOT decided: everything value-level - exactness, idempotence, agreement of coerce/coerce_value/check."
 )
 LEVEL_RULE = "one obligation per try_coerce implementation / helper / schema-level site / coerce method / operator"
 FLOORS = {"R1": 4, "R2": 4, "R3": 4, "R4": 20, "R5": 1, "R6": 2}
